@@ -52,6 +52,16 @@ impl Cfg {
         self.prepopulate = rng.chance(1, 3);
         self.upper_levels = rng.usize_below(3); // level 3 would pin ~1 GiB; 0..2 sampled
         self.preallocate_ht = false;
+        if std::env::var("NV_BASELINE_CFG").is_ok() {
+            // used by the C13 hang differential: same history, plainest configuration
+            self.commit_concurrency = 1;
+            self.io_workers = 1;
+            self.warm_up = false;
+            self.page_cache_mb = 8;
+            self.leaf_cache_mb = 8;
+            self.prepopulate = false;
+            self.upper_levels = 2;
+        }
     }
 
     pub fn sample(rng: &mut Rng) -> Self {
